@@ -634,10 +634,11 @@ def run(res, replay=None):
     res.cov['rule'] = ('schedules = sequences of (start push/pop on thread t | one shared access of thread t): directed scenarios for 2/4/8 slots (consumer overtaking at both stall points, producer overtaking, '
                        'pop on empty while the head ticket is in flight at both stall points, CAS failures, stale reads over more than a lap, slot wrap-around with inner size 2 and 2048, default geometry through ff_unbounded_queue, malformed commands), '
                        'random schedules (2-6 producers, 1-4 consumers, slot counts from nqueues 1,2,3,4,5,8 and the default, inner sizes 2..2048, uniform/bursty/stalling/starved styles, drained at the end), '
-                       'edge cover (every reachable state and every transition) of small configurations on 2 slots (quick: 2 producers x 1 consumer, 1 producer x 2 consumers, 1 producer x 2 pushes x 1 consumer; thorough: 2x1 op producers with 1 consumer x 2 pops and with 2 consumers, 3 pushes against 2+1 pops, 2+1 pushes against 2 pops, and a truncated part of 3 producers x 1 consumer: coverage.exhaustive), free-running stress lines. '
+                       'edge cover (every reachable state and every transition) of small configurations on 2 slots (quick: 2 producers x 1 consumer, 1 producer x 2 consumers, 1 producer x 2 pushes x 1 consumer; thorough: 2x1 op producers with 1 consumer x 2 pops and with 2 consumers, 3 pushes against 2+1 pops, 2+1 pushes against 2 pops, and a truncated part of 3 producers x 1 consumer: coverage.exhaustive_configurations), free-running stress lines. '
                        'After EVERY step preadP, preadC, seqP[], seqC[], the inner buffer lengths and any result are compared with the model. distinct non-trivial = distinct schedule prefixes ending in a step')
     res.cov['schedules'] = nscripts
-    res.cov['exhaustive'] = ex or False
+    res.cov['exhaustive_configurations'] = ex or {}      # complete enumerations of small configurations (the schema reserves `exhaustive` for a boolean)
+    res.cov['exhaustive'] = False                          # the run as a whole is not an exhaustive enumeration
     h = [hashlib.sha256()]
     def nontrivial(l):
         if l.startswith('new'):
